@@ -431,7 +431,7 @@ Definition is_nondet (op : opid) : bool := let '(d, n, _) := op in existsb (str_
 
 Definition cse_skip (size_limit : Z) (n : node) : bool :=
   existsb (fun ka => is_graph_attr (snd ka)) (n_attrs n)
-  || existsb (fun ka => match snd ka with AData t p => N.eqb t TY_TENSOR && Z.ltb size_limit (tensor_payload_size p) | _ => false end) (n_attrs n)
+  || existsb (fun ka => match snd ka with AData t p => if N.eqb t TY_TENSOR then Z.ltb size_limit (tensor_payload_size p) else false | _ => false end) (n_attrs n)
   || is_nondet (n_op n).
 Definition cse_key_eqb (a b : node) : bool :=
   opid_eqb (n_op a) (n_op b) && Nat.eqb (length (n_outs a)) (length (n_outs b))
@@ -442,21 +442,6 @@ Definition cse_key_eqb (a b : node) : bool :=
    removal.  Returns the model and the fresh-id counter. *)
 Definition insert_before (k : vid) (nn : node) (ns : list node) : list node :=
   flat_map (fun n => if has_key k n then [nn; n] else [n]) ns.
-Fixpoint fix_outputs (m : model) (k : vid) (pairs : list (vid * vid)) (outs : list vid) (fresh : N)
-  : list vid * list node * N :=
-  match outs with
-  | [] => ([], [], fresh)
-  | o :: r =>
-    match alookup pairs o with
-    | Some w =>
-      if is_graph_output m w || is_graph_input m w then
-        let '(r', ids, fr) := fix_outputs m k pairs r (fresh + 1) in
-        (fresh :: r', mkNode OP_Identity [] [Some w] [fresh] :: ids, fr)
-      else
-        let '(r', ids, fr) := fix_outputs m k pairs r fresh in (w :: r', ids, fr)
-    | None => let '(r', ids, fr) := fix_outputs m k pairs r fresh in (o :: r', ids, fr)
-    end
-  end.
 (* the output list is rewritten position by position while is_graph_output of later candidates is
    evaluated on the CURRENT state: after outputs[idx] = w, w is a graph output *)
 Fixpoint fix_outputs_seq (m : model) (k : vid) (pairs : list (vid * vid)) (idx : nat) (n : nat) (fresh : N) : model * N :=
